@@ -451,6 +451,11 @@ def getComponent (U : Universe) (s : St) (e : Ent) (t : Ty) : Option Obj :=
 
 def getComponents (s : St) (e : Ent) : List Obj := Dict.values (row s e)
 
+/-- `get(object)`: every attached component, whatever its type (the walk from the root of all classes
+reaches every class) -/
+def getAll (s : St) : List (Ent × Obj) :=
+  s.ents.flatMap fun er => er.2.map fun tc => (er.1, tc.2)
+
 def entityExists (s : St) (e : Ent) : Bool := (Dict.get? s.ents e).isSome && !s.dead.contains e
 
 def entities (s : St) : List Ent := (Dict.keys s.ents).filter (fun e => !s.dead.contains e)
@@ -615,6 +620,10 @@ def parseOp : List String → Option ScOp
 def parseLine (p : Parsed) (line : String) : Parsed :=
   match tokens line with
   | ["class", cid, kind, b, n, k, pr] => parseClass p cid kind b n k pr
+  -- harness-only declarations: Python-level traits of a class (value equality, falsy instances) and a
+  -- second, independent world doing other things in the same process — invisible to a correct World
+  | "trait" :: _ => p
+  | "decoy" :: _ => p
   | "obj" :: o :: c :: _ =>
     match o.toNat?, (kv "class" c).bind String.toNat? with
     | some o, some c => { p with objTy := Dict.set p.objTy o c }
@@ -673,8 +682,10 @@ def snapshot (U : Universe) (p : Parsed) (s : St) : List String :=
   (p.entUniverse.flatMap fun e =>
       [s!"row {e} {showNats (sortNats (getComponents s e))}",
        s!"exists {e} {showBool (entityExists s e)}"] ++
-      (ctys.map fun t => s!"has {e} {t} {showBool (hasComponent U s e t)} {showOpt (getComponent U s e t)}")) ++
-  [s!"entities {showNats (sortNats (entities s))}",
+      (ctys.map fun t => s!"has {e} {t} {showBool (hasComponent U s e t)} {showOpt (getComponent U s e t)} {
+          match getComponent U s e t with | some c => toString c | none => "D"}")) ++
+  [s!"getall " ++ joinList ((sortNats ((getAll s).map pairKey)).map fun k => s!"{k / 100000}:{k % 100000}"),
+   s!"entities {showNats (sortNats (entities s))}",
    s!"procs {showNats s.sorted}"] ++
   (ptys.map fun t => s!"gp {t} {showOpt (getProcessor U s t)}") ++
   [s!"pw {showNats (sortNats s.pworld)}"] ++
